@@ -774,7 +774,9 @@ wrapped_interval<Number>::operator||(const wrapped_interval<Number> &x) const {
       delta =
           (m_end * wrapint(2, w)) - (m_start * wrapint(2, w)) + wrapint(1, w);
     }
-    return x | wrapped_interval<Number>(x.m_start, x.m_start + delta);
+    // the result must also contain *this: it is not included in x if
+    // it covers the gap between x.m_end and x.m_start.
+    return join | wrapped_interval<Number>(x.m_start, x.m_start + delta);
   } else {
     return wrapped_interval<Number>::top();
   }
@@ -916,7 +918,9 @@ wrapped_interval<Number> wrapped_interval<Number>::widening_thresholds(
           (m_end * wrapint(2, w)) - (m_start * wrapint(2, w)) + wrapint(1, w);
     }
     // TODO: apply thresholds
-    return x | wrapped_interval<Number>(x.m_start, x.m_start + delta);
+    // the result must also contain *this: it is not included in x if
+    // it covers the gap between x.m_end and x.m_start.
+    return join | wrapped_interval<Number>(x.m_start, x.m_start + delta);
   } else {
     return wrapped_interval<Number>::top();
   }
